@@ -50,4 +50,31 @@ theorem normChan_in_range (s : Synth.S) (channel : Nat) (h16 : 16 ≤ s.midi.len
 /-- opn2_rt_patchChange stores a program below 128 for every 8-bit argument -/
 theorem patch_masked (p : Nat) : p % 128 < 128 := Nat.mod_lt _ (by decide)
 
+
+/-! ## the configuration surface as a whole (Model/Settings.lean: every setter, reset, bank and music load) -/
+
+open Opn.Settings in
+/-- **every configuration call reports one of the documented results** — nothing (void functions), 0, or -1 — for every state
+    and every argument value of the parameter types (the model's `step` is total: no call of this surface can fail to return) -/
+theorem config_call_result (s : Settings.S) (op : Settings.Op) :
+    (Settings.step s op).2 = none ∨ (Settings.step s op).2 = some 0 ∨ (Settings.step s op).2 = some (-1) := by
+  cases op <;> simp only [Settings.step] <;> (try split) <;> simp
+
+open Opn.Settings in
+/-- a configuration call that reports -1 has changed nothing (a music load re-applies the setup, which C18 shows to be the
+    identity on every reachable state: `C18.music_keeps`) -/
+theorem config_call_failed_frame (s : Settings.S) (op : Settings.Op) (h : (Settings.step s op).2 = some (-1))
+    (hm : op ≠ .musicRejected ∧ op ≠ .musicAccepted) : (Settings.step s op).1 = s := by
+  cases op <;> simp only [Settings.step] at h ⊢ <;> (try split at h) <;> simp_all
+
+/-- … and for every sequence of configuration calls, from the fresh instance: the run is defined, every state on the way is
+    consistent (C18), so in particular a refused music file changes nothing at any point of any history -/
+theorem config_history_safe (ops : List Settings.Op) :
+    let s := ops.foldl (fun s op => (Settings.step s op).1) ({} : Settings.S)
+    (Settings.step s .musicRejected).1 = s ∧ (Settings.step s .musicAccepted).1 = s := by
+  intro s
+  have hc := C18.consistent_reachable ops
+  have := C18.music_keeps s hc
+  exact ⟨this.2, this.1⟩
+
 end Opn.C03
